@@ -55,7 +55,8 @@ class MPBFloatContext___init__(Contract):
     properties = ['C01']
     binds = {'self.nan_value': 'nan_value', 'self.inf_value': 'inf_value', 'self.rng': 'rng'}
     split = ['neg_maxval', 'nan_value', 'inf_value']
-    options = {'noax_first_ms': 4000, 'light_theory': True}
+    # with substitutes: hundreds of paths, minutes per case -> thorough tier; *_plain is the quick-tier variant
+    options = {'noax_first_ms': 4000, 'light_theory': True, 'symbolic_tier': 'thorough'}
 
     def post(self, pmax, emin, maxval, rm, overflow, num_randbits, neg_maxval, rng, enable_nan, enable_inf,
              nan_value, inf_value, result):
@@ -194,7 +195,8 @@ class MPBFixedContext___init__(Contract):
     properties = ['C01']
     binds = {'self.nan_value': 'nan_value', 'self.inf_value': 'inf_value', 'self.rng': 'rng'}
     split = ['neg_maxval', 'nan_value', 'inf_value']
-    options = {'noax_first_ms': 4000, 'light_theory': True}
+    # with substitutes: hundreds of paths, minutes per case -> thorough tier; *_plain is the quick-tier variant
+    options = {'noax_first_ms': 4000, 'light_theory': True, 'symbolic_tier': 'thorough'}
 
     def post(self, nmin, maxval, rm, overflow, num_randbits, neg_maxval, rng, enable_nan, enable_inf, enable_neg_zero,
              nan_value, inf_value, result):
